@@ -186,7 +186,9 @@ def check(case):
     return Outcome(labels, b >= 2 or o["stop_words"] is not None or removed)
 
 
-WORDS = ["the", "is", "and", "of", "cat", "dog", "Cat", "DOG", "a", "I", "x", "bird", "fish", "The", "first", "document", "it", "be"]
+WORDS = ["the", "is", "and", "of", "cat", "dog", "Cat", "DOG", "a", "I", "x", "bird", "fish", "The", "first", "document", "it", "be",
+         # tokens scikit-learn keeps apart from their look-alikes: a ligature, full-width digits, a superscript, a composed and a decomposed accent
+         "\ufb01rst", "\uff11\uff12", "12", "km\u00b2", "km2", "caf\u00e9", "cafe\u0301"]
 
 
 @st.composite
